@@ -130,15 +130,15 @@ def precipRecordedR : List (String × String × Bool) :=
 def diffW : List (String × String × Bool) :=
   [("finalTime", "t", false),
    ("finalX", "x", false),
-   ("recordX", "_recordedX", true),
-   ("recordTime", "_recordedTime", true)]
+   ("recordX", "_recordedX", false),
+   ("recordTime", "_recordedTime", false)]
 
 /-- DiffusionModel.fromDict -/
 def diffR : List (String × String × Bool) :=
   [("finalTime", "t", false),
    ("finalX", "x", false),
-   ("recordX", "_recordedX", true),
-   ("recordTime", "_recordedTime", true)]
+   ("recordX", "_recordedX", false),
+   ("recordTime", "_recordedTime", false)]
 
 /-- public getters of BinarySurrogate -/
 def binaryGetters : List String :=
@@ -149,7 +149,7 @@ def binaryFallthrough : List (String × String) :=
   [("getDrivingForce", "getDrivingForce"),
    ("getInterdiffusivity", "getInterdiffusivity"),
    ("getInterfacialComposition", "getInterfacialComposition"),
-   ("getTracerDiffusivity", "getTracerDiffusivity")]
+   ("getTracerDiffusivity", "getInterdiffusivity")]
 
 /-- untrained BinarySurrogate: (getter, exactly one call, arguments and result handed through unchanged) -/
 def binaryPassThrough : List (String × Bool) :=
@@ -168,7 +168,7 @@ def multiFallthrough : List (String × String) :=
    ("getDrivingForce", "getDrivingForce"),
    ("getGrowthAndInterfacialComposition", "getGrowthAndInterfacialComposition"),
    ("getInterdiffusivity", "getInterdiffusivity"),
-   ("getTracerDiffusivity", "getTracerDiffusivity"),
+   ("getTracerDiffusivity", "getInterdiffusivity"),
    ("impingementFactor", "impingementFactor")]
 
 /-- untrained MulticomponentSurrogate: (getter, exactly one call, arguments and result handed through unchanged) -/
